@@ -36,6 +36,8 @@ m = {
     },
     "engines": [
         {"name": "driver", "path": "harness/driver.c", "serves_properties": sorted(claims), "kind_free_text": "replayable API-script interpreter linked with the library built from /repo under ASan+UBSan (or plain with guard pages / ld --wrap failpoints); records judged offline by Python oracles in vlib/"},
+        {"name": "libfuzzer-target", "path": "harness/fuzz_target.c", "serves_properties": ["C09"], "kind_free_text": "clang libFuzzer + ASan + UBSan target; the same file built standalone with MemorySanitizer replays corpora"},
+        {"name": "threads", "path": "harness/threads.c", "serves_properties": ["C18"], "kind_free_text": "pthread workload built with gcc -fsanitize=thread (and ASan)"},
         {"name": "decode-oracle", "path": "harness/decode.c", "serves_properties": [p for p in ("C01", "C02", "C03", "C04", "C05", "C11", "C13") if p in claims], "kind_free_text": "LLVM-MC + libopcodes decoders, canonical tuples (vlib/canon.py), nasm referee (vlib/oracle.py)"},
     ],
     "checks": checks,
